@@ -39,19 +39,21 @@ type pMut struct {
 }
 
 type c05Case struct {
-	Mode   string  `json:"mode"` // roundtrip | sweep | hdr | payload | stream | big
-	Magic  uint32  `json:"magic"`
-	Msgs   []pMsg  `json:"msgs,omitempty"`
-	Full   bool    `json:"full,omitempty"`   // sweep: every one of the 255 other values at every offset
-	Large  bool    `json:"large,omitempty"`  // sweep: also try (two per offset of) the length values claiming 64KiB..limit
-	Ops    []hdrOp `json:"ops,omitempty"`    // header-field rewrites applied to the stream
-	PMuts  []pMut  `json:"pmuts,omitempty"`  // payload mutations applied before (re)framing
-	Tail   ev.B    `json:"tail,omitempty"`   // bytes following the frame in the stream
-	Cmd    ev.B    `json:"cmd,omitempty"`    // payload/stream: command bytes (default: kind of Msgs[0])
-	Raw    ev.B    `json:"raw,omitempty"`    // stream: payload bytes (Framed) or the whole stream
-	Framed bool    `json:"framed,omitempty"` // stream: Raw is a payload, framed with a correct header
-	BigLen int     `json:"biglen,omitempty"` // big: payload length around the size limit
-	Src    string  `json:"src,omitempty"`    // "fuzz": case decoded from native fuzzer bytes (FuzzC05)
+	Mode   string   `json:"mode"` // roundtrip | sweep | hdr | payload | stream | big
+	Magic  uint32   `json:"magic"`
+	Msgs   []pMsg   `json:"msgs,omitempty"`
+	Full   bool     `json:"full,omitempty"`   // sweep: every one of the 255 other values at every offset
+	Large  bool     `json:"large,omitempty"`  // sweep: also try (two per offset of) the length values claiming 64KiB..limit
+	Ops    []hdrOp  `json:"ops,omitempty"`    // header-field rewrites applied to the stream
+	PMuts  []pMut   `json:"pmuts,omitempty"`  // payload mutations applied before (re)framing
+	Tail   ev.B     `json:"tail,omitempty"`   // bytes following the frame in the stream
+	Cmd    ev.B     `json:"cmd,omitempty"`    // payload/stream: command bytes (default: kind of Msgs[0])
+	Raw    ev.B     `json:"raw,omitempty"`    // stream: payload bytes (Framed) or the whole stream
+	Framed bool     `json:"framed,omitempty"` // stream: Raw is a payload, framed with a correct header
+	BigLen int      `json:"biglen,omitempty"` // big: payload length around the size limit
+	Lists  [][]pMsg `json:"lists,omitempty"`  // conc: one message list per goroutine
+	Reps   int      `json:"reps,omitempty"`   // conc: repetitions of the list per goroutine
+	Src    string   `json:"src,omitempty"`    // "fuzz": case decoded from native fuzzer bytes (FuzzC05)
 }
 
 func gMagic() *rapid.Generator[uint32] {
@@ -150,9 +152,18 @@ func gPMut() *rapid.Generator[pMut] {
 func genC05(t *rapid.T) c05Case {
 	// (rapid favours the first entries)
 	mode := rapid.SampledFrom([]string{"payload", "payload", "payload", "payload", "payload", "hdr", "hdr", "hdr", "hdr", "sweep", "sweep",
-		"roundtrip", "roundtrip", "roundtrip", "roundtrip", "roundtrip", "roundtrip", "stream", "stream", "stream"}).Draw(t, "mode")
+		"roundtrip", "roundtrip", "roundtrip", "roundtrip", "roundtrip", "roundtrip", "stream", "stream", "stream", "conc"}).Draw(t, "mode")
+	if mode == "conc" && rapid.IntRange(0, 17).Draw(t, "concrare") != 0 {
+		mode = "roundtrip" // a concurrent case costs as much as a few hundred others: about a dozen per quick shard
+	}
 	c := c05Case{Mode: mode, Magic: gMagic().Draw(t, "magic")}
 	switch mode {
+	case "conc":
+		// K = 2..6 goroutines, each with its own 3..8 small messages of any kind, repeated so that
+		// every goroutine handles a few hundred frames
+		k := rapid.IntRange(2, 6).Draw(t, "goroutines")
+		c.Lists = rapid.SliceOfN(rapid.SliceOfN(gMsg("", true), 3, 8), k, k).Draw(t, "lists")
+		c.Reps = rapid.IntRange(20, 40).Draw(t, "reps")
 	case "roundtrip":
 		c.Msgs = rapid.SliceOfN(gMsg("", false), 1, 3).Draw(t, "msgs")
 	case "sweep":
@@ -613,6 +624,8 @@ func runC05(ctx *ev.Ctx, c c05Case) {
 		}
 	case "big":
 		runBig(ctx, c)
+	case "conc":
+		runConc(ctx, c)
 	default:
 		ctx.Label("unknown-mode")
 	}
@@ -781,7 +794,7 @@ func runBig(ctx *ev.Ctx, c c05Case) {
 func gridCases() []c05Case {
 	// every shard starts with the limit+1 payload: a reader that lost its size limit would otherwise
 	// spend the whole budget clearing multi-GiB buffers in the sweeps instead of being reported
-	out := []c05Case{{Mode: "big", Magic: 0x8c77ab60, BigLen: maxPayload + 1}}
+	out := []c05Case{{Mode: "big", Magic: 0x8c77ab60, BigLen: maxPayload + 1}, concGridLight(), concGrid()}
 	n := 0
 	add := func(c c05Case) {
 		if n%ev.Shards() == ev.Shard() {
@@ -802,7 +815,8 @@ const c05Rule = "cases: (roundtrip) 1..3 generated messages of any of the 16 kin
 	"encoded reference frame, read back and compared field by field; (sweep) every offset of a small frame x {8 bit flips, 00, FF, +1, -1} or all 255 values (length-field values claiming 64KiB..limit are sampled in the per-kind grid only); " +
 	"(hdr) rewrites of magic / length / checksum / command, truncation, checksum repair; (payload) byte-level mutations of a valid payload re-framed with a correct " +
 	"checksum; (stream) arbitrary payloads under any command and arbitrary byte streams; (big) payload sizes limit-1, limit, limit+1; every outcome judged by the " +
-	"independent frame predicate. non-trivial: the stream is corrupted / mutated / arbitrary, or a round-tripped message carries a non-empty list or a nested " +
+	"independent frame predicate; (conc) 2..6 goroutines each framing, reading back and reading corrupted copies of their own message lists (hundreds of frames each) " +
+	"at the same time, verdicts compared with the same work done alone. non-trivial: the stream is corrupted / mutated / arbitrary, or a round-tripped message carries a non-empty list or a nested " +
 	"block / transaction; distinct by JSON encoding of the case"
 
 func TestC05(t *testing.T) {
